@@ -14,7 +14,7 @@ from core import VERIF, quiet, repo_tree_hash
 
 quiet()
 CACHE = os.path.join(VERIF, ".cache")
-HARNESS_VERSION = "6"
+HARNESS_VERSION = "7"
 
 SPECIALS = [
     # redox pairs that reach the reagent templates, halide losses, ions, heavy elements, markers, peroxides
@@ -40,6 +40,9 @@ SPECIALS = [
     "C1CCNCC1.O=CC.CC(C)(C)OOC(C)(C)C.CC#N>>CC(=O)N1CCCCC1", "NCc1ccccc1.O=Cc1ccc(Cl)cc1.CC(C)(C)OO>>O=C(NCc1ccccc1)c1ccc(Cl)cc1",
     "CCCCN.O=Cc1ccncc1.CC(C)(C)OOC(C)(C)C.c1ccccc1>>CCCCNC(=O)c1ccncc1", "NCCO.O=Cc1ccco1.CC(C)(C)OO.ClCCl>>O=C(NCCO)c1ccco1",
     "CCNCC.O=Cc1ccccc1.CC(C)(C)OOC(C)(C)C.CC#N>>CCN(CC)C(=O)c1ccccc1",
+    # isotope-labelled hydrogen: explicit graph atoms bonded to heavy atoms (D2 addition, deuterated reagents, D/H exchange)
+    "C=C.[2H][2H]>>[2H]CC[2H]", "[2H]O[2H].CC(=O)Cl>>CC(=O)O[2H]", "CC(=O)C.[2H][2H]>>CC(O[2H])([2H])C", "[2H]C([2H])([2H])O>>[2H]C([2H])=O",
+    "C#C.[3H][3H]>>[3H]C=C[3H]", "CC=O.[2H][2H]>>CC([2H])O",
 ]
 
 
@@ -187,7 +190,7 @@ def workload_configs(ctx):
             except Exception as e:
                 out, err = None, "%s: %s" % (type(e).__name__, e)
             res[name] = {"inputs": ins, "out": out, "stats": st, "error": err, "threshold": kw.get("confidence_threshold", 0),
-                         "batch_size": kw.get("batch_size"), "n_jobs": kw.get("n_jobs")}
+                         "batch_size": kw.get("batch_size"), "n_jobs": kw.get("n_jobs"), "keep_maps": attrs.get("remove_aam") is False}
         return res
 
     return cached("configs", ctx.tier, ctx.seed, compute)
@@ -306,14 +309,29 @@ def stmt_c01(ctx, out):
             ctx.count("unsolved")
 
 
-def stmt_c03(ctx, out, threshold=0):
-    for r in out:
+def stmt_c03(ctx, out, threshold=0, inputs=None, keep_maps=False):
+    """`inputs`: the raw inputs of the run (same order) — a declined row must carry the text it was given (after atom-map
+    removal unless the configuration keeps the maps), not merely agree with the row's own `input_reaction` column"""
+    from synrbl.SynUtils.chem_utils import remove_atom_mapping
+
+    for pos, r in enumerate(out):
         ctx.case(("c03", r.get("input_reaction")), nontrivial=not r.get("solved"))
         if not r.get("solved"):
             issue = r.get("issue")
-            if threshold == 0 and (r["reaction"] != r["input_reaction"] or not isinstance(issue, str) or issue == ""):
+            demoted = r.get("solved_by") == "mcs-based" and threshold != 0  # kept MCS result below the threshold (C13)
+            if not isinstance(issue, str) or issue == "" or (not demoted and r["reaction"] != r["input_reaction"]):
                 ctx.violation("declined-row-altered-or-without-reason", r.get("input_reaction"),
                               "reaction=%s issue=%r" % (r["reaction"], issue), "synrbl/postprocess.py:Validator.check")
+            raw = inputs[pos] if inputs is not None and pos < len(inputs) else None
+            if isinstance(raw, dict):
+                raw = raw.get("reaction")
+            if isinstance(raw, str) and not demoted:
+                given = raw if keep_maps or issue == "Invalid reaction SMILES." else remove_atom_mapping(raw)
+                ctx.count("declined-row-compared-with-given-text")
+                if r["reaction"] != given:
+                    ctx.violation("declined-row-differs-from-given-input", raw,
+                                  "returned %s, given %s (atom maps %s)" % (r["reaction"], given, "kept" if keep_maps else "removed"),
+                                  "synrbl/preprocess.py / synrbl/postprocess.py:Validator.check")
         else:
             if r.get("solved_by") not in METHODS or r.get("issue") not in (None, ""):
                 ctx.violation("solved-row-without-method-or-with-issue", r.get("input_reaction"),
